@@ -372,7 +372,8 @@ def _transform_mappings_into_dataframe(mapping_graph, section_name):
     fnml_query_results = mapping_graph.query(FNML_PARSING_QUERY)
 
     # RML in graph to DataFrame
-    rml_df = pd.DataFrame(rml_query_results.bindings)
+    # (all the variables of the query as columns, also those that are not bound in any result)
+    rml_df = pd.DataFrame(rml_query_results.bindings, columns=rml_query_results.vars)
     rml_df.columns = rml_df.columns.map(str)
 
     # process mapping rules with joins
